@@ -228,3 +228,100 @@ Proof.
       * apply str_eqb_neq. exact N1.
       * apply mem_str_false. exact N2.
 Qed.
+
+(* ---------- the generated file as the ordered union of the builds' statement sets ---------- *)
+Require Import Laze.proofs.StmtFacts.
+
+Lemma rmapM_ok {A B} (f : A -> res B) : forall l ys, rmapM f l = Ok ys -> Forall2 (fun x y => f x = Ok y) l ys.
+Proof.
+  induction l as [|x t IH]; intros ys H; cbn in H.
+  - inversion H; subst. constructor.
+  - destruct (f x) as [y| | |] eqn:E; cbn [rbind] in H; try discriminate.
+    destruct (rmapM f t) as [ys'| | |] eqn:E2; cbn [rbind] in H; try discriminate.
+    inversion H; subst. constructor; [exact E|apply IH; reflexivity].
+Qed.
+
+Definition union_stmts (results : list ((nat * module) * cfg_result)) : list stmt :=
+  fold_left (fun acc r => match snd r with
+                          | Built _ es => fold_left (fun a e => sset_insert e a) es acc
+                          | NoBuild _ => acc end) results [].
+
+Lemma union_text_gen (results : list ((nat * module) * cfg_result)) t : forall acc,
+  In t (map show_stmt (fold_left (fun acc r => match snd r with
+                                               | Built _ es => fold_left (fun a e => sset_insert e a) es acc
+                                               | NoBuild _ => acc end) results acc)) <->
+  In t (map show_stmt acc) \/ exists r info es, In r results /\ snd r = Built info es /\ In t (map show_stmt es).
+Proof.
+  induction results as [|r rs IH]; intros acc; cbn [fold_left].
+  - split; [auto|]. intros [H|(r & info & es & [] & _)]. exact H.
+  - rewrite IH. destruct (snd r) as [info es|w] eqn:Er.
+    + rewrite sset_fold_text. split.
+      * intros [[H|H]|(r' & i' & e' & Hr & Hs & Ht)].
+        -- left; exact H.
+        -- right. exists r, info, es. split; [left; reflexivity|]. split; [exact Er|exact H].
+        -- right. exists r', i', e'. split; [right; exact Hr|]. split; assumption.
+      * intros [H|(r' & i' & e' & [<-|Hr] & Hs & Ht)].
+        -- left; left; exact H.
+        -- rewrite Er in Hs. inversion Hs; subst. left; right; exact Ht.
+        -- right. exists r', i', e'. split; [exact Hr|]. split; assumption.
+    + split.
+      * intros [H|(r' & i' & e' & Hr & Hs & Ht)]; [left; exact H|].
+        right. exists r', i', e'. split; [right; exact Hr|]. split; assumption.
+      * intros [H|(r' & i' & e' & [<-|Hr] & Hs & Ht)]; [left; exact H| |].
+        -- rewrite Er in Hs. discriminate.
+        -- right. exists r', i', e'. split; [exact Hr|]. split; assumption.
+Qed.
+
+Lemma union_nodup_gen (results : list ((nat * module) * cfg_result)) : forall acc, NoDup (map show_stmt acc) ->
+  NoDup (map show_stmt (fold_left (fun acc r => match snd r with
+                                                | Built _ es => fold_left (fun a e => sset_insert e a) es acc
+                                                | NoBuild _ => acc end) results acc)).
+Proof.
+  induction results as [|r rs IH]; intros acc H; cbn [fold_left]; [exact H|].
+  apply IH. destruct (snd r); [apply sset_fold_nodup; exact H|exact H].
+Qed.
+
+Section GenShape.
+  Variable H : list ascii -> N.
+  Variable EV : str -> evr.
+
+  (* the file is the header followed by the statements of the configured builds, each distinct
+     statement once; a statement is in the file iff some selected, configured build emits it *)
+  Theorem generate_shape b le bsel asel local part select disable cli_env g :
+    generate H EV b le bsel asel local part select disable cli_env = Ok g ->
+    gr_file g = header le ++ concat (map show_stmt (gr_stmts g)) /\
+    NoDup (map show_stmt (gr_stmts g)) /\
+    exists bs bins,
+      selected_builders b bsel = Ok bs /\ selected_bins b asel local = Ok bins /\
+      let tuples := part_filter b part (pairs bs bins) in
+      forall t, In t (map show_stmt (gr_stmts g)) <->
+                exists bm info es, In bm tuples /\
+                  configure_build H EV b le (fst bm) (snd bm) select disable cli_env = Ok (Built info es) /\
+                  In t (map show_stmt es).
+  Proof.
+    unfold generate. intros HG.
+    destruct (selected_builders b bsel) as [bs| | |] eqn:Eb; cbn [rbind] in HG; try discriminate.
+    destruct (selected_bins b asel local) as [bins| | |] eqn:Ebin; cbn [rbind] in HG; try discriminate.
+    set (tuples := part_filter b part (pairs bs bins)) in *.
+    destruct (rmapM _ tuples) as [results| | |] eqn:ER; cbn [rbind] in HG; try discriminate.
+    inversion HG; subst g; cbn [gr_file gr_stmts]. split; [reflexivity|]. split.
+    - apply union_nodup_gen. constructor.
+    - exists bs, bins. split; [reflexivity|]. split; [reflexivity|]. cbn zeta. fold tuples. clearbody tuples. intros t.
+      rewrite union_text_gen. cbn [map]. apply rmapM_ok in ER. split.
+      + intros [[]|(r & info & es & Hr & Hs & Ht)].
+        assert (G : exists bm, In bm tuples /\ rmap (fun r0 => (bm, r0)) (configure_build H EV b le (fst bm) (snd bm) select disable cli_env) = Ok r).
+        { clear -ER Hr. revert Hr. induction ER as [|x y l l' Hxy _ IH]; intros Hr; [contradiction|].
+          destruct Hr as [<-|Hr]; [exists x; split; [left; reflexivity|exact Hxy]|].
+          destruct (IH Hr) as (bm & I & E). exists bm. split; [right; exact I|exact E]. }
+        destruct G as (bm & Hbm & E). exists bm, info, es. split; [exact Hbm|]. split; [|exact Ht].
+        unfold rmap in E. destruct (configure_build H EV b le (fst bm) (snd bm) select disable cli_env) as [c| | |]; cbn [rbind] in E; try discriminate.
+        inversion E; subst r. cbn [snd] in Hs. subst c. reflexivity.
+      + intros (bm & info & es & Hbm & Hc & Ht). right.
+        assert (G : exists r, In r results /\ r = (bm, Built info es)).
+        { clear -ER Hbm Hc. revert Hbm. induction ER as [|x y l l' Hxy _ IH]; intros Hbm; [contradiction|].
+          destruct Hbm as [->|Hbm].
+          - exists y. split; [left; reflexivity|]. rewrite Hc in Hxy. cbn in Hxy. inversion Hxy. reflexivity.
+          - destruct (IH Hbm) as (r & I & E). exists r. split; [right; exact I|exact E]. }
+        destruct G as (r & Hr & ->). exists (bm, Built info es), info, es. auto.
+  Qed.
+End GenShape.
